@@ -171,7 +171,7 @@ def gen_case(sim):
         if universal:
             rprog.append([("readline", "next", "readline", "readlines")[sim.choose(4)], None])
         elif k < 3:
-            rprog.append(["read", (0, 1, 2, 7, 100, 8192, 8193, 30000)[sim.choose(8)]])
+            rprog.append([("read", "read", "read", "readinto")[sim.choose(4)], (0, 1, 2, 7, 100, 8192, 8193, 30000)[sim.choose(8)]])
         elif k == 3:
             rprog.append(["read", None])
         elif k < 7:
@@ -185,7 +185,7 @@ def gen_case(sim):
         k = sim.choose(8)
         if k < 6:
             wprog.append(["write", (0, 1, 2, 10, 16, 17, 100, 8192, 20000)[sim.choose(9)], sim.choose(1000),
-                          ("mixed", "lf-only", "none")[sim.choose(3)], bool(sim.choose(4) == 0)])
+                          ("mixed", "lf-only", "none")[sim.choose(3)], bool(sim.choose(4) == 0), bool(sim.choose(5) == 0)])
         else:
             wprog.append(["flush", bool(sim.choose(4) == 0)])
     return {"family": fam, "kind": kind, "size": size, "style": style, "data_seed": sim.choose(1000),
@@ -237,7 +237,23 @@ def check_reads(sim, case, f, stream, text, universal):
     p = 0
     ctx = "(mode %s, bufsize %d, delivery style %d)" % (case["rmode"], case["bufsize"], case["chunk_style"])
     for i, (op, arg) in enumerate(case["rprog"]):
-        if op == "read":
+        if op == "readinto":
+            buf = bytearray(arg)
+            k_ = f.readinto(buf)
+            got = bytes(buf[:k_])
+            if text:
+                got = got.decode("latin-1") if isinstance(stream, str) else got
+            want = stream[p:p + arg]
+            if isinstance(want, str):
+                want = want.encode("latin-1")
+                got = got if isinstance(got, bytes) else got.encode("latin-1")
+            if got != want:
+                fail(case, ("C42", "read-differs", "readinto", how(got, want)),
+                     "step %d readinto(bytearray(%d)) at stream position %d filled in %s, expected %s %s"
+                     % (i, arg, p, brief(got), brief(want), ctx))
+            p += len(want)
+            sim.probe("readinto")
+        elif op == "read":
             got = f.read() if arg is None else f.read(arg)
             want = stream[p:] if arg is None else stream[p:p + arg]
             if got != want:
@@ -343,7 +359,13 @@ def check_writes(sim, case, f, sink_fn, settle=None):
     for i, op in enumerate(case["wprog"]):
         if op[0] == "write":
             d = wdata(op)
-            f.write(d.decode("ascii") if op[4] else d)
+            if len(op) > 5 and op[5]:
+                # the same bytes handed over line by line
+                parts = d.splitlines(True)
+                f.writelines([x.decode("ascii") for x in parts] if op[4] else parts)
+                sim.probe("writelines")
+            else:
+                f.write(d.decode("ascii") if op[4] else d)
             written += d
             sink = prefix_check(i, "write")
             if bc == "unbuffered" and len(sink) != len(written):
